@@ -1,6 +1,7 @@
 //! Library harness: C01, C02, C15 (event path) and C13 (fs worker) on a whole `Watchexec`.
 
 mod c01_real;
+mod c15_real;
 mod evh;
 mod fsw;
 mod model;
@@ -65,6 +66,20 @@ fn main() {
 	if prop == "C01" && args.rest.get(1).map(String::as_str) == Some("--real-leg") {
 		std::process::exit(c01_real::main_leg());
 	}
+	if prop == "C15" && args.rest.get(1).map(String::as_str) == Some("--real-leg") {
+		std::process::exit(c15_real::main_leg());
+	}
+	// a recorded violation of a real leg is replayed by running that leg again
+	if let Some(f) = &args.replay {
+		let real = std::fs::read_to_string(f).ok().and_then(|t| serde_json::from_str::<serde_json::Value>(&t).ok()).map_or(false, |v| v["scenario"].get("real_case").is_some());
+		if real {
+			let code = if prop == "C15" { c15_real::main_leg() } else { c01_real::main_leg() };
+			if code == 1 {
+				println!("VIOLATION property={prop} replay={}", f.display());
+			}
+			std::process::exit(code);
+		}
+	}
 	let code = match prop.as_str() {
 		"C01" | "C02" | "C13" | "C15" => {
 			let h = EvH { prop: prop.clone() };
@@ -100,6 +115,35 @@ fn main() {
 							log: vec![],
 							count: 1,
 						});
+					}
+				}))
+			} else if prop == "C15" && args.worker.is_none() && args.replay.is_none() {
+				Some(Box::new(|cov, viols| {
+					let exe = std::env::current_exe().expect("exe");
+					let mut cmd = std::process::Command::new(exe);
+					cmd.args(["C15", "--real-leg"]);
+					let Some(o) = orch::output_with_timeout(cmd, 180) else {
+						cov.insert("real_watcher_leg".into(), serde_json::json!("not completed within its wall limit"));
+						return;
+					};
+					let text = String::from_utf8_lossy(&o.stdout).to_string();
+					let lines: Vec<String> = text.lines().filter(|l| l.starts_with("REAL case=")).map(str::to_string).collect();
+					cov.insert("real_watcher_leg".into(), serde_json::json!(lines));
+					for line in lines {
+						if line.contains(" ok=false ") && !line.contains("machinery:") {
+							let name = line.split_whitespace().nth(1).unwrap_or("case=?").trim_start_matches("case=").to_string();
+							viols.push(orch::ViolationRec {
+								property: "C15".into(),
+								key: format!("C15/real/{name}"),
+								detail: line,
+								harness: "h-lib/c15-real".into(),
+								scenario: serde_json::json!({"real_case": name}),
+								bounds: None,
+								choices: vec![],
+								log: vec![],
+								count: 1,
+							});
+						}
 					}
 				}))
 			} else {
